@@ -4,6 +4,7 @@ import (
 	"go/token"
 	"go/types"
 	"strings"
+	"sync"
 
 	"golang.org/x/tools/go/ssa"
 )
@@ -540,4 +541,23 @@ func (it *Interp) reflValueEqual(x, y Value) Value {
 	}
 	it.unsupported("== on reflect.Value of kind " + typeStr(xv.t.Underlying()))
 	return Value{}
+}
+
+var typesPkgs sync.Map
+
+// typesPackage returns a go/types package for a package path (the loaded one
+// when there is one).
+func (eng *Engine) typesPackage(path string) *types.Package {
+	if p, ok := eng.pkgs[path]; ok {
+		return p.Pkg
+	}
+	if p, ok := typesPkgs.Load(path); ok {
+		return p.(*types.Package)
+	}
+	name := path
+	if i := strings.LastIndex(path, "/"); i >= 0 {
+		name = path[i+1:]
+	}
+	p, _ := typesPkgs.LoadOrStore(path, types.NewPackage(path, name))
+	return p.(*types.Package)
 }
